@@ -291,7 +291,7 @@ class Host(HeaderElement):
 		try:
 			inet_pton(AF_INET, self.host)
 			return True
-		except error:
+		except (error, ValueError):
 			return False
 
 	@property
@@ -300,7 +300,7 @@ class Host(HeaderElement):
 		try:
 			inet_pton(AF_INET6, self.host)
 			return True
-		except error:
+		except (error, ValueError):
 			return False
 
 	@property
@@ -328,7 +328,10 @@ class Host(HeaderElement):
 
 	def sanitize(self) -> None:
 		self.value = self.value.lower()
-		self.host, self.port = self.HOSTPORT.match(self.value).groups()
+		match = self.HOSTPORT.match(self.value)
+		if match is None:
+			raise InvalidHeader(_(u'Invalid Host header: %s'), self.value)
+		self.host, self.port = match.groups()
 		if self.host.endswith(']') and self.host.startswith('['):
 			self.host = self.host[1:-1]
 		if self.port:
